@@ -913,7 +913,7 @@ def null_model_dir_sign(W, bin_swaps=5, wei_freq=.1, seed=None):
        formal tests (such as the Kolmogorov-Smirnov test) if desired.
     '''
     rng = get_rng(seed)
-    W = W.copy()
+    W = W.astype(float)  # private float copy (in-place float updates below)
     n = len(W)
     np.fill_diagonal(W, 0)  # clear diagonal
     Ap = (W > 0)  # positive adjmat
@@ -1040,7 +1040,7 @@ def null_model_und_sign(W, bin_swaps=5, wei_freq=.1, seed=None):
     rng = get_rng(seed)
     if not np.allclose(W, W.T):
         raise BCTParamError("Input must be undirected")
-    W = W.copy()
+    W = W.astype(float)  # private float copy (in-place float updates below)
     n = len(W)
     np.fill_diagonal(W, 0)  # clear diagonal
     Ap = (W > 0)  # positive adjmat
